@@ -1,0 +1,11 @@
+//go:build !verif
+
+// Package verifhook carries the verification hooks of the library. With the
+// build tag "verif" off every function in here is an empty stub.
+package verifhook
+
+// Enabled reports whether the hooks are compiled in.
+const Enabled = false
+
+// T emits one event (no-op without the verif build tag).
+func T(pkg, ev string, a ...int64) {}
